@@ -255,3 +255,67 @@ Proof.
     by (vm_compute; repeat constructor).
   destruct (Ht H2) as [Heq _]. vm_compute in Heq. discriminate.
 Qed.
+
+(* ------------------------------------------------------------------ *)
+(* Known finding raw-frames:canvas-size: NewEncoder 4x2, one pre-encoded 1x1 frame of
+   duration 0, no metadata, Close: Muxer.assembleSimple writes a simple file, the explicit
+   canvas size is not stored and the file's canvas is 1x1. *)
+
+Definition w5_ops : list op := [ORaw (mkmrec 0 0 (mkimg 1 1 [R]) false true false 0)].
+
+Definition w5_out : option output :=
+  match new_encoder 4 2 lossless_default with
+  | Some st0 =>
+      let '(stf, _) := run_ops repaired 10000 (fun _ => o_none) (fun _ => no_fail) st0 w5_ops in
+      close false false stf
+  | None => None
+  end.
+
+Example w5_canvas_is_the_frame_size :
+  option_map (fun o => (out_W o, out_H o)) w5_out = Some (1, 1).
+Proof. vm_compute. reflexivity. Qed.
+
+Theorem anim_mixed_roundtrip_refuted_lone_small_raw : ~ anim_mixed_roundtrip_statement false.
+Proof.
+  intros Hs.
+  destruct (new_encoder 4 2 lossless_default) as [st0|] eqn:Hn; [|vm_compute in Hn; discriminate].
+  destruct (run_ops repaired 10000 (fun _ => o_none) (fun _ => no_fail) st0 w5_ops) as [stf acc] eqn:Hr.
+  destruct (close false false stf) as [out|] eqn:Hc;
+    [|vm_compute in Hn; injection Hn as <-; vm_compute in Hr; injection Hr as <- <-;
+      vm_compute in Hc; discriminate].
+  specialize (Hs id_img id_img 4 2 lossless_default w5_ops (fun _ => o_none) (fun _ => no_fail) 10000
+                 false false st0 stf acc out id_codec_lossless).
+  assert (Hd : wf_canvas_dims 4 2) by (unfold wf_canvas_dims, max_canvas_dimension; lia).
+  assert (Ho : lossless_opts lossless_default)
+    by (unfold lossless_opts, max_loop_count; cbn; repeat split; lia).
+  assert (Hwf : Forall (wf_op 4 2) w5_ops).
+  { constructor; [|constructor]. unfold wf_op, wf_raw, wf_img, max_duration, R, P; cbn.
+    repeat split; try lia. constructor; [unfold wf_px; cbn; lia|constructor]. }
+  specialize (Hs Hd Ho Hwf Hn Hr ltac:(discriminate) Hc).
+  destruct Hs as [[Hw _] _ _].
+  vm_compute in Hn. injection Hn as <-. vm_compute in Hr. injection Hr as <- <-.
+  vm_compute in Hc. injection Hc as <-. vm_compute in Hw. discriminate.
+Qed.
+
+(* a mixed history on the model: AddFrame, AddRawFrame (green 2x2 block at (2,0), blended,
+   disposed to background afterwards), AddFrame *)
+Definition w6_ops : list op :=
+  [ OAdd (mkimg 4 2 [R;R;R;R; R;R;R;R], 10);
+    ORaw (mkmrec 2 0 (mkimg 2 2 [G;G;G;G]) false false true 20);
+    OAdd (mkimg 4 2 [R;R;T;R; R;R;R;G], 30) ].
+
+Definition w6_show : option (show * show) :=
+  match new_encoder 4 2 lossless_default with
+  | Some st0 =>
+      let '(stf, acc) := run_ops repaired 10000 (fun _ => o_none) (fun _ => no_fail) st0 w6_ops in
+      match close false false stf with
+      | Some out => Some (playback id_img id_img repaired out, ref_show 4 2 (blank 4 2, None) acc)
+      | None => None
+      end
+  | None => None
+  end.
+
+Example w6_mixed_history_plays_the_reference_show :
+  w6_show = Some ([([R;R;R;R; R;R;R;R], 10); ([R;R;G;G; R;R;G;G], 20); ([R;R;T;R; R;R;R;G], 30)],
+                  [([R;R;R;R; R;R;R;R], 10); ([R;R;G;G; R;R;G;G], 20); ([R;R;T;R; R;R;R;G], 30)]).
+Proof. vm_compute. reflexivity. Qed.
